@@ -1,6 +1,7 @@
 import Pko.Util
 import Pko.Model.Deploy
 import Pko.Model.DeploySpec
+import Pko.Model.DeployRetry
 /-! Line driver for C16.  `model` prints what the model of `Deploy` / the Package controller does
 for a scenario (same format as the Go harnesses); `monitor` parses the IMPLEMENTATION's line into
 observations and evaluates the property (`DeploySpec.checkDeploy` / `checkRun`) on them.
@@ -10,7 +11,7 @@ for the concrete inputs the harness builds (e.g. "Kubernetes >=1.20.x against 1.
 It is confirmed by the correspondence run, where the real loader / semver / schema / renderer
 evaluate those inputs. -/
 namespace Pko.Drv.C16
-open Lean Pko.Model.Deploy Pko.Model.DeploySpec
+open Lean Pko.Model.Deploy Pko.Model.DeploySpec Pko.Model.DeployRetry
 
 structure JPkg where
   load : String
@@ -90,6 +91,10 @@ def xOf : Nat → String
 def renderId (s : Spec) : String :=
   s!"p{s.image}{if s.component == 1 then "c1" else ""}.{s.image}.{xOf s.config}"
 
+/-- "conflict<N>": a third party writes before each of the next N Updates. -/
+def conflictOf (f : String) : Option Nat :=
+  if f.startsWith "conflict" then (f.drop 8).toNat? else none
+
 def faultsOf : String → Faults
   | "pull" => { pull := true }
   | "env" => { env := true }
@@ -101,7 +106,9 @@ def faultsOf : String → Faults
   | "gc" => { recon := .late }
   | "odget2" => { odGet2 := true }
   | "status" => { status := true }
-  | _ => {}
+  | f => match conflictOf f with
+    | some (n + 1) => { recon := .conflict (n + 1) }
+    | _ => {}
 
 def specOf (l : List Nat) : Option Spec :=
   match l with
@@ -132,7 +139,7 @@ def invStr : Inv → String
   | .none => "-" | .loadError => "LoadError" | .constraintsFailed => "ConstraintsFailed"
 
 def writeStr : Write → String
-  | .create => "C" | .createFail => "C!" | .update => "U" | .updateFail => "U!"
+  | .create => "C" | .createFail => "C!" | .update => "U" | .updateFail => "U!" | .updateConflict => "U~"
 
 def writesStr (ws : List Write) : String := ",".intercalate (ws.map writeStr)
 
@@ -151,8 +158,38 @@ def unpackedStr : Option Bool → String
 def invCondStr : Inv → String
   | .none => "-" | i => "T/" ++ invStr i
 
-def odOf : String → OD String
-  | "empty" => some none | "old" => some (some "old") | _ => none
+/-- The ObjectDeployment the harness puts into the API at the start (`c16OD`). -/
+def srvOf : String → Option (Obj String)
+  | "empty" => some ⟨1, none, [], []⟩
+  | "old" => some ⟨1, some "old", [], []⟩
+  | "prev" => some ⟨1, some "old", [("img", "0"), ("cfg", "1"), ("cc", "inst")], [("pkg", "pkg0"), ("inst", "p")]⟩
+  | _ => none
+
+def odOf (s : String) : OD String := absOD (srvOf s)
+
+/-- Annotations / labels of `desiredObjectDeployment` for a spec, in the vocabulary of
+`verifc16.MetaID`. -/
+def desiredOf (s : Spec) : Obj String :=
+  ⟨0, none, [("img", toString s.image), ("cfg", toString s.config), ("cc", "inst")],
+   -- the manifest name of a component is the component's name (the structural loader renames it)
+   [("pkg", if s.component == 1 then "c1" else s!"pkg{s.image}"), ("inst", "p")]⟩
+
+/-- Key of the i-th third-party write of a pass (`verifc16.Client.thirdPartyWrite`). -/
+def tpKey (i : Nat) : String := s!"tp{i + 1}"
+
+def dedupKV : KV → List String → KV
+  | [], _ => []
+  | (k, v) :: r, seen => if seen.contains k then dedupKV r seen else (k, v) :: dedupKV r (k :: seen)
+
+/-- Canonical print of a map: `k:v` strings sorted, `-` when empty. -/
+def kvStr (m : KV) : String :=
+  let xs := ((dedupKV m []).map fun kv => kv.1 ++ ":" ++ kv.2).mergeSort (fun a b => !(b < a))
+  if xs.isEmpty then "-" else ",".intercalate xs
+
+def metaStr (s : Option (Obj String)) : String :=
+  match s with
+  | none => "ann=- lab=-"
+  | some o => s!"ann={kvStr o.ann} lab={kvStr o.lab}"
 
 def priorOf : String → Inv
   | "LoadError" => .loadError | "ConstraintsFailed" => .constraintsFailed | _ => .none
@@ -165,13 +202,15 @@ structure DeployCase where
   inv : Inv
   od : OD String
   t : String
+  srv : Option (Obj String)
+  desired : Obj String
 
 def deployCase (sc : Scn) : Option DeployCase := do
   let s ← specOf sc.spec
   if s.image ≥ sc.pkgs.length then none
   let fault := (sc.ops.filter (·.op == "pass")).getLast?.map (·.fault) |>.getD ""
   some { L := leavesOf sc (fault == "loader") s, f := (faultsOf fault).recon, inv := priorOf sc.prior,
-         od := odOf sc.od, t := renderId s }
+         od := odOf sc.od, t := renderId s, srv := srvOf sc.od, desired := desiredOf s }
 
 def listsOf (L : Leaves) : Nat :=
   if L.load && (consLoop L.cons).isSome && L.uniq != .absent then 1 else 0
@@ -180,8 +219,9 @@ def modelDeploy (sc : Scn) : String :=
   match deployCase sc with
   | none => "BAD-SCN"
   | some c =>
-    let d := deploy c.t c.L c.f c.inv c.od
-    s!"ret={if d.err then "err" else "nil"} inv={invStr d.inv} w={writesStr d.writes} t={odStr d.od} rec={if d.reconciled then 1 else 0} lists={listsOf c.L}"
+    let r := deployObj c.t c.desired c.L c.f c.inv c.srv tpKey
+    let d := r.1
+    s!"ret={if d.err then "err" else "nil"} inv={invStr d.inv} w={writesStr d.writes} t={odStr (absOD r.2)} rec={if d.reconciled then 1 else 0} lists={listsOf c.L} {metaStr r.2}"
 
 /-! ### ctrl stream -/
 
@@ -220,6 +260,7 @@ def parseWrites (s : String) : Option (List Write) :=
   if s.isEmpty then some [] else
   (s.splitOn ",").mapM fun
     | "C" => some .create | "C!" => some .createFail | "U" => some .update | "U!" => some .updateFail
+    | "U~" => some .updateConflict
     | _ => none
 
 def parseOd : String → OD String
@@ -235,6 +276,24 @@ def parseHash (s : String) : Option (Option Spec) :=
   match (s.splitOn ".").map String.toNat? with
   | [some a, some b, some c] => some (some ⟨a, b, c⟩)
   | _ => none
+
+def parseKV (s : String) : Option KV :=
+  if s == "-" then some [] else
+  (s.splitOn ",").mapM fun e =>
+    match e.splitOn ":" with
+    | [k, v] => some (k, v)
+    | _ => none
+
+def parseMObs (line : String) : Option MObs := do
+  let fs := fieldsOf line
+  let a ← (← getF fs "ann") |> parseKV
+  let l ← (← getF fs "lab") |> parseKV
+  some ⟨a, l⟩
+
+def premOf (s : Option (Obj String)) : MObs :=
+  match s with
+  | none => ⟨[], []⟩
+  | some o => ⟨o.ann, o.lab⟩
 
 def parseDObs (line : String) : Option (DObs String) := do
   let fs := fieldsOf line
@@ -271,9 +330,27 @@ def monitorDeploy (sc : Scn) (out : String) : String :=
     match parseDObs out with
     | none => s!"bad unparsable {out.take 100}"
     | some o =>
-      match checkDeploy c.t c.L c.f c.od o with
-      | [] => "ok"
-      | v :: _ => s!"bad {v} out={out}"
+      match parseMObs out with
+      | none => s!"bad unparsable-metadata {out.take 160}"
+      | some m =>
+        match checkDeploy c.t c.L c.f c.od o ++
+            checkMeta c.L c.desired.ann c.desired.lab ((List.range c.f.conflicts).map tpKey) (premOf c.srv) o m with
+        | [] => "ok"
+        | v :: _ => s!"bad {v} expected-template={c.t} out={out}"
+
+/-- The last clause of the property at FULL strength on a history: after a fault-free pass over an
+admissible spec the ObjectDeployment carries the fresh render — also when an EARLIER pass of the
+history lost its status write (`checkRun` arms its `stale-template` clause only for loss-free
+histories, which is what `changed_spec_history_ends_fresh_partial` proves).  A hit here that
+`checkRun` does not report is the known finding C16-c (lost status write + revert of the spec). -/
+def staleRun {H T : Type} [DecidableEq H] [DecidableEq T] (hash : Spec → H) (render : Spec → T)
+    (W : Spec → Leaves) : MState H T → List Op → List (Option (PObs H T)) → List (Nat × String)
+  | m, .edit s :: ops, none :: obs => staleRun hash render W { m with spec := s, idx := m.idx + 1 } ops obs
+  | m, .pass F :: ops, some o :: obs =>
+    (((checkStep hash render (W m.spec) F m.spec m.ph m.pod (clean F) o).filter (· == "stale-template")).map
+      fun _ => (m.idx, "stale-template-after-lost-status")) ++
+      staleRun hash render W { m with ph := o.hash, pod := o.od, idx := m.idx + 1 } ops obs
+  | _, _, _ => []
 
 def monitorCtrl (sc : Scn) (out : String) : String :=
   let bad := if out == "BAD-SCN" then "ok" else s!"bad shape expected BAD-SCN got {out.take 60}"
@@ -292,7 +369,11 @@ def monitorCtrl (sc : Scn) (out : String) : String :=
       | some obs =>
         match checkRun (H := Spec) id renderId (leavesOf sc false)
             { spec := s0, ph := none, pod := none, lateSeen := false, idx := 0 } ops obs with
-        | [] => "ok"
+        | [] =>
+          match staleRun (H := Spec) id renderId (leavesOf sc false)
+              { spec := s0, ph := none, pod := none, lateSeen := false, idx := 0 } ops obs with
+          | [] => "ok"
+          | (i, v) :: _ => s!"bad {v} step={i} got={steps.getD i ""}"
         | (i, v) :: _ => s!"bad {v} step={i} got={steps.getD i ""}"
 
 def monitor (sc : Scn) (out : String) : String :=
